@@ -20,10 +20,17 @@ type overrun struct {
 	// (new_stream.initial_window_size resp. settings.initial_window_size); it must have no
 	// influence on the window the real endpoint enforces for what it receives
 	peerWin uint32
+	// sendBlocked: before the overrun, the receiving application is blocked in a send of its
+	// own on the same stream (it has used up the window peerWin and gets no credit)
+	sendBlocked bool
 }
 
 func (o overrun) String() string {
-	return fmt.Sprintf("delta=%d/%s/consumed=%d/peerwin=%d", o.delta, o.place, o.consumed, o.peerWin)
+	s := fmt.Sprintf("delta=%d/%s/consumed=%d/peerwin=%d", o.delta, o.place, o.consumed, o.peerWin)
+	if o.sendBlocked {
+		s += "/sendblocked"
+	}
+	return s
 }
 
 // overrunPlan returns the data frames (as (first, size, len) triples) that fill the window
@@ -95,16 +102,27 @@ func c06Scenarios(tier string) []*Scenario {
 	for _, d := range []int{1, 16384, 3 * 65536} {
 		for _, p := range []string{"envelope", "continuation", "newmsg"} {
 			for _, k := range []int{0, 1, 4} {
-				ovs = append(ovs, overrun{d, p, k, 65536})
+				ovs = append(ovs, overrun{delta: d, place: p, consumed: k, peerWin: 65536})
 			}
-			ovs = append(ovs, overrun{d, p, 0, 1 << 24}, overrun{d, p, 0, 1024})
+			ovs = append(ovs, overrun{delta: d, place: p, peerWin: 1 << 24}, overrun{delta: d, place: p, peerWin: 1024})
 		}
 	}
 	// a peer that stays exactly within the 64 KiB window must never be refused, whatever window
 	// it announces for its own direction
 	for _, pw := range []uint32{65536, 1024, 1 << 24} {
-		o := overrun{0, "continuation", 0, pw}
+		o := overrun{delta: 0, place: "continuation", peerWin: pw}
 		ovs = append(ovs, o)
+	}
+	// the overrun (or nothing, delta=0) arrives while the application is blocked in SendMsg
+	for _, d := range []int{0, 1, 3 * 65536} {
+		for _, p := range []string{"envelope", "continuation"} {
+			for _, pw := range []uint32{65536, 1024} {
+				if d == 0 && p == "envelope" {
+					continue
+				}
+				ovs = append(ovs, overrun{delta: d, place: p, peerWin: pw, sendBlocked: true})
+			}
+		}
 	}
 	for _, o := range ovs {
 		o := o
@@ -121,6 +139,9 @@ func c06Scenarios(tier string) []*Scenario {
 				hops := []HOp{}
 				if o.consumed > 0 {
 					hops = append(hops, HOp{K: "recv"})
+				}
+				if o.sendBlocked {
+					hops = append(hops, HOp{K: "send", Size: int(o.peerWin) + 100})
 				}
 				if o.place == "envelope" {
 					// complete messages fill the window; the handler reads none of them
@@ -161,6 +182,18 @@ func c06Scenarios(tier string) []*Scenario {
 					_ = rc.Send(fNew(1, "/verif.T/Bidi", 1, o.peerWin, "s1"))
 					_ = rc.Send(fNew(2, "/verif.T/Bidi", 1, 65536, "s2"))
 					send(1, pre)
+					if o.sendBlocked {
+						// the handler has used up the window this peer announced and is blocked
+						w.WaitUntil("raw:handler-blocked", func() bool {
+							c := 0
+							for _, m := range rc.Recvd {
+								if m.StreamId == 1 {
+									c += dataLenS(m)
+								}
+							}
+							return c >= int(o.peerWin) || w.Vals["hangup"] != nil
+						})
+					}
 					if o.consumed > 0 {
 						// wait for the credit of the consumed frames
 						w.WaitUntil("raw:credit", func() bool {
@@ -243,12 +276,17 @@ func c06Scenarios(tier string) []*Scenario {
 				n := w.NewRawServerNet("T", true, func(c *RawServerConn) error {
 					_ = c.Send(fSettings(-1, o.peerWin, 0, 1))
 					ids := map[string]int64{}
+					got := 0 // request data bytes of r1 seen so far
 					for len(ids) < 2 {
-						m, err := c.RecvUntil(func(m *tunnelpb.ClientToServer) bool { return m.GetNewStream() != nil })
+						m, err := c.Recv()
 						if err != nil {
 							return nil
 						}
-						ids[scriptOf(m.GetNewStream())] = m.StreamId
+						if m.GetNewStream() != nil {
+							ids[scriptOf(m.GetNewStream())] = m.StreamId
+						} else if id, ok := ids["r1"]; ok && m.StreamId == id {
+							got += dataLenC(m)
+						}
 					}
 					id1, id2 := ids["r1"], ids["r2"]
 					send := func(id int64, fs []dframe) {
@@ -264,6 +302,18 @@ func c06Scenarios(tier string) []*Scenario {
 					pre, fill, over := overrunPlan(o, 1)
 					_ = c.Send(fHdr(id1, nil))
 					send(id1, pre)
+					if o.sendBlocked {
+						// the caller has used up the window this peer announced and is blocked
+						for got < int(o.peerWin) {
+							m, err := c.Recv()
+							if err != nil {
+								return nil
+							}
+							if m.StreamId == id1 {
+								got += dataLenC(m)
+							}
+						}
+					}
 					if o.consumed > 0 {
 						credit := 0
 						for credit < o.consumed*protoChunk {
@@ -294,6 +344,9 @@ func c06Scenarios(tier string) []*Scenario {
 				r1 := CallSpec{ID: "r1", Tag: 1, Method: "Bidi", Ops: []COp{{K: "new"}}}
 				if o.consumed > 0 {
 					r1.Ops = append(r1.Ops, COp{K: "recv"})
+				}
+				if o.sendBlocked {
+					r1.Ops = append(r1.Ops, COp{K: "send", Size: int(o.peerWin) + 100})
 				}
 				r1.Ops = append(r1.Ops, COp{K: "waitdone"}, COp{K: "recvall"})
 				r2 := CallSpec{ID: "r2", Tag: 2, Method: "Bidi", Ops: []COp{{K: "new"}, {K: "recvall"}}}
